@@ -98,6 +98,11 @@ type (
 	route struct {
 		code int
 		path *MuxPath
+
+		// ipFilters are the IP filters an uncached search consults, in
+		// order, before it arrives at this result. A cached result must
+		// consult the same filters.
+		ipFilters []*ipfilter.IPFilter
 	}
 )
 
@@ -546,21 +551,18 @@ func (mi *muxInstance) search(req *httpprot.Request) *route {
 	// headers.
 	r := mi.getRouteFromCache(req)
 	if r != nil {
-		if r.code != 0 {
-			return r
+		for _, f := range r.ipFilters {
+			if !allowIP(f, ip) {
+				return forbidden
+			}
 		}
-		if r.path.ipFilterChain == nil {
-			return r
-		}
-		if r.path.ipFilterChain.Allow(ip) {
-			return r
-		}
-		return forbidden
+		return r
 	}
 
 	if !allowIP(mi.ipFilter, ip) {
 		return forbidden
 	}
+	ipFilters := []*ipfilter.IPFilter{mi.ipFilter}
 
 	for _, host := range mi.rules {
 		if !host.match(req) {
@@ -570,6 +572,7 @@ func (mi *muxInstance) search(req *httpprot.Request) *route {
 		if !allowIP(host.ipFilter, ip) {
 			return forbidden
 		}
+		ipFilters = append(ipFilters, host.ipFilter)
 
 		for _, path := range host.paths {
 			if !path.matchPath(req) {
@@ -587,6 +590,7 @@ func (mi *muxInstance) search(req *httpprot.Request) *route {
 			if len(path.headers) == 0 {
 				if !headerMismatch {
 					r = &route{code: 0, path: path}
+					r.ipFilters = append(append(r.ipFilters, ipFilters...), path.ipFilter)
 					mi.putRouteToCache(req, r)
 				}
 			} else if !path.matchHeaders(req) {
@@ -607,11 +611,11 @@ func (mi *muxInstance) search(req *httpprot.Request) *route {
 	}
 
 	if methodMismatch {
-		mi.putRouteToCache(req, methodNotAllowed)
+		mi.putRouteToCache(req, &route{code: methodNotAllowed.code, ipFilters: ipFilters})
 		return methodNotAllowed
 	}
 
-	mi.putRouteToCache(req, notFound)
+	mi.putRouteToCache(req, &route{code: notFound.code, ipFilters: ipFilters})
 	return notFound
 }
 
